@@ -4,10 +4,35 @@ Shape L: the full Cartesian product of small per-dimension value sets of column 
 dispersivity, diffusion coefficient, time step, shifts, direction, boundary conditions, stagnant layer,
 multicomponent / implicit diffusion, initial pattern, inflow solution, reactive solid), organised in families so that
 dimensions that cannot influence a family are not multiplied in.  Every point is one TRANSPORT / ADVECTION run on
-the real library; the per-cell, per-shift read-outs (USER_PUNCH: TOTMOLE, TOT("water"), CHARGE_BALANCE, TC, SYS) are
-judged by the regime-specific relations in mc/oracles/c11_transport.py.
+the real library (a brand-new instance per point); the per-cell, per-shift read-outs (USER_PUNCH: TOTMOLE, TOT("water"),
+CHARGE_BALANCE, TC, SYS) are judged by the regime-specific relations in mc/oracles/c11_transport.py:
+
+  inventory  diffusion_only + closed/closed + (equal lengths or multi_d): column inventory (mobile + stagnant cells, with
+             solids: SYS totals) of H, O, Na, K, Cl, Ca, N, C and of charge the same at every shift, relative 1e-9
+  shift      pure advection (TRANSPORT with disp = D = 0, ADVECTION): cell i after a shift == upstream neighbour before
+             it (all element totals, water, charge, temperature; relative 1e-9 because the engine re-speciates)
+  convex     single D, no multi_d, no solid: every molality within [min, max] of initial column U boundary solutions
+  balance    pure advection with exchanger / calcite: inventory incl. solids (s) = inventory (s-1) + inflow - outflow
+
+Only runs with rc == 0 and no ERROR are judged (R2); the others are counted.  A diffusion-only column in which the
+engine finds nothing to mix (one cell, closed ends) prints no rows after shift 0 and is counted as 'no mixing'.
+
+Calibration on the unchanged tree (R5).  Every mismatch is an inventory mismatch of a multicomponent-diffusion run with
+one stagnant layer, and every one is a genuine loss / creation / conversion of moles (percent level, minimal inputs in
+the fingerprinted replay files).  The oracle was therefore left as the statement has it; what was changed is the
+fingerprint, which now names the mechanism seen in the observables (oracle.classify):
+  'inventory element unannounced mode=implicit stag=1'                  moles leave a mobile cell and never arrive in its
+                                                                        stagnant cell (also with explicit MIX factors)
+  'inventory element like-named-element-exchange mode=mcd stag=1'       a deficit of Cl / Ca / Na is filled from C / N
+  'inventory element engine-announced-addition mode=mcd|implicit stag=1' negative totals reset to 0 / min_mol; the engine
+                                                                        announces the added moles in a WARNING
+A different failure in the same configurations gets a different fingerprint unless it is an unannounced loss in
+implicit + stagnant runs.  No sub-claim of the statement was dropped and no tolerance widened.
 """
 import os
+import re
+import sys
+import time
 
 from .. import core, phr
 from ..oracles import c11_transport as orc
@@ -56,7 +81,10 @@ def lengths(kind, n):
     raise ValueError(kind)
 
 
-STAG = {0: None, 1: (6.8e-6, 0.2, 0.2, 1.0), 2: (6.8e-6, 0.2, 0.1, 0.5)}     # exch factor, th_m, th_im, kg water in immobile cell
+# one stagnant layer.  1, 2: first-order exchange given with -stagnant (exchange factor, th_m, th_im) + kg water in the immobile
+# cells; 3: '-stagnant 1' with the mobile/immobile exchange written as explicit, symmetric MIX blocks (the way the manual
+# prescribes for multicomponent diffusion; the engine then prints no usage warning), fraction MIXF, 1 kg water everywhere
+STAG = {0: None, 1: (6.8e-6, 0.2, 0.2, 1.0), 2: (6.8e-6, 0.2, 0.1, 0.5), 3: ("mix", 0.1, None, 1.0)}
 
 
 def build_input(c):
@@ -86,6 +114,12 @@ def build_input(c):
     if stag:
         for i in range(1, n + 1):
             t.append("SOLUTION %d\n %s\n -water %r" % (i + 1 + n, SOL[cell_solution(c["pat"], i + 1, n)], stag[3]))
+        if stag[0] == "mix":
+            f = stag[1]
+            for i in range(1, n + 1):
+                k = i + 1 + n
+                t.append("MIX %d\n %d %r\n %d %r" % (i, i, 1 - f, k, f))
+                t.append("MIX %d\n %d %r\n %d %r" % (k, k, 1 - f, i, f))
     if solid == "exchange":
         for i in range(1, n + 1):
             t.append("EXCHANGE %d\n X 0.0015\n -equilibrate %d" % (i, i))
@@ -103,7 +137,7 @@ def build_input(c):
               "-dispersivities " + " ".join("%r" % (c["disp"] * x) for x in lengths(c["len"], n)),
               "-diffusion_coefficient %r" % c["D"], "-punch_cells 0-%d" % lastcell, "-punch_frequency 1", "-print_frequency 1000"]
         if stag:
-            tr.append("-stagnant 1 %r %r %r" % stag[:3])
+            tr.append("-stagnant 1" if stag[0] == "mix" else "-stagnant 1 %r %r %r" % stag[:3])
         mode = c.get("mode", "plain")
         if mode in ("mcd", "implicit"):
             tr.append("-multi_d true 1e-9 0.3 0.05 1.0")
@@ -148,6 +182,26 @@ def table(res):
                 dup += 1
             cells[r["soln"]] = r
     return init, by_step, dup
+
+
+ADDED_HEAD = "For balancing negative concentrations in MCD, added in total to the system:"
+ADDED_LINE = re.compile(r"^(?:WARNING:)?\s*([0-9.]+[eE][-+]?[0-9]+) moles ([A-Z][a-z]*)(?:\([-+0-9.]*\))?\.\s*$")
+
+
+def announced_additions(warn):
+    """{element: moles} the engine itself announces (WARNING at the end of a multicomponent-diffusion run) to have added to
+    the system to repair negative concentrations.  Only used to name the mechanism in a fingerprint."""
+    out = {}
+    lines = (warn or "").splitlines()
+    for i, l in enumerate(lines):
+        if ADDED_HEAD in l:
+            for m in lines[i + 1:]:
+                g = ADDED_LINE.match(m.strip())
+                if g:
+                    out[g.group(2)] = out.get(g.group(2), 0.0) + float(g.group(1))
+                elif m.strip() not in ("", "WARNING:"):
+                    break
+    return out
 
 
 def run_case(case):
@@ -198,14 +252,17 @@ def run_case(case):
         if any(r["sys_" + e] < r[e] * (1 - 1e-9) for cs_ in by_step.values() for r in cs_.values() for e in ELEMENTS):
             raise RuntimeError("SYS() total below the dissolved total: %r" % (case,))
     tag_cfg = "mode=%s stag=%d" % (case.get("mode", "plain"), 1 if stag else 0)
-    # the engine announces in a WARNING when it adds moles to repair a negative concentration in multicomponent diffusion
-    engine_added = "Negative concentration in MCD: added" in (res["warn"] or "")
-    added = " engine-warned-added-moles" if engine_added else ""
+    # the engine announces in a WARNING how many moles it added to repair negative concentrations in multicomponent
+    # diffusion; the amounts only serve to name the mechanism of an inventory mismatch (oracle.classify), the verdict is
+    # the statement's: inventory constant to 1e-9.  (1e-13 mol per cell of an absent element is the engine's floor.)
+    announced = announced_additions(res["warn"])
+    engine_added = any(v > 1e-12 for v in announced.values())
     problems = []
     worst = {}
     if "inventory" in reg:
         if solid == "none":
-            p, w = orc.check_inventory(by_step, cells, ["H", "O"] + ELEMENTS, tag_cfg + (" len=equal" if case.get("mode", "plain") == "plain" else "") + added)
+            p, w = orc.check_inventory(by_step, cells, ["H", "O"] + ELEMENTS, tag_cfg + (" len=equal" if case.get("mode", "plain") == "plain" else ""),
+                                       announced=announced)
         else:
             ren = dict((st, dict((cno, dict([(e, r["sys_" + e]) for e in ["H", "O"] + ELEMENTS] + [("cb", r["cb"])])) for cno, r in cs.items())) for st, cs in by_step.items())
             p, w = orc.check_inventory(ren, cells, ["H", "O"] + ELEMENTS, "%s solid=%s" % (tag_cfg, solid))
@@ -244,7 +301,7 @@ def run_case(case):
     if dup:
         out["diagnostics"].append("%d duplicate (shift, cell) rows in selected output (last one used): %s" % (dup, case))
     if engine_added:
-        out["sample"]["engine_warned_added_moles"] = True
+        out["sample"]["engine_warned_added_moles"] = announced
     return out
 
 
@@ -276,12 +333,12 @@ def families(tier):
         DDT = [(0.0, 1e3), (1e-9, 1e3), (1e-9, 1e6)]
         # D1: diffusion only, one diffusion coefficient: inventory (closed, equal lengths) + convexity (all)
         fam.append(("diffusion-only, single D", P(
-            "TR", n=N, len=LEN3, D_dt=DDT + [(3e-10, 1e6)], shifts=SH, dir=["diffusion_only"], bc=BC2, stag=[0, 1, 2], pat=PATTERNS,
+            "TR", n=N, len=LEN3, D_dt=DDT[1:] + [(3e-10, 1e6)], shifts=SH, dir=["diffusion_only"], bc=BC2, stag=[0, 1, 2, 3], pat=PATTERNS,
             inflow=[0], disp=[0.0], mode=["plain"])))
         # D2: diffusion only, multicomponent (explicit / implicit), closed column: inventory
         fam.append(("diffusion-only, multicomponent", P(
             "TR", n=N, len=LEN3, D_dt=[(3e-10, 1e3), (3e-10, 1e5)], shifts=SH, dir=["diffusion_only"], bc=[["closed", "closed"]],
-            stag=[0, 1, 2], pat=PATTERNS, inflow=[0], disp=[0.0], mode=["mcd", "implicit"])))
+            stag=[0, 1, 2, 3], pat=PATTERNS, inflow=[0], disp=[0.0], mode=["mcd", "implicit"])))
         # A1: advection + dispersion + diffusion, one diffusion coefficient: exact shift (disp = D = 0) + convexity (all)
         fam.append(("advective TRANSPORT, single D", P(
             "TR", n=[1, 2, 3, 5], len=["equal", "growing"], disp=[0.0, 0.1, 2.0], D_dt=DDT, shifts=[3], dir=["forward", "back"], bc=BC3,
@@ -301,23 +358,17 @@ def families(tier):
         N, NL, SH = [1, 2, 3, 5, 8], [20, 40], [1, 3, 10]
         DDT = [(0.0, 1e3), (3e-10, 1e3), (1e-9, 1e3), (3e-10, 1e6), (1e-9, 1e6)]
         fam.append(("diffusion-only, single D", P(
-            "TR", n=N, len=LEN3, D_dt=DDT, shifts=SH, dir=["diffusion_only"], bc=BC2, stag=[0, 1, 2], pat=PATTERNS,
+            "TR", n=N, len=LEN3, D_dt=DDT[1:], shifts=SH, dir=["diffusion_only"], bc=BC2, stag=[0, 1, 2, 3], pat=PATTERNS,
             inflow=[0, 1], disp=[0.0], mode=["plain"])))
         fam.append(("diffusion-only, single D, long columns", P(
             "TR", n=NL, len=LEN3, D_dt=DDT[1:], shifts=[10], dir=["diffusion_only"], bc=BC2, stag=[0, 1], pat=PATTERNS,
             inflow=[0], disp=[0.0], mode=["plain"])))
         fam.append(("diffusion-only, multicomponent", P(
             "TR", n=N, len=LEN3, D_dt=[(3e-10, 1e3), (3e-10, 1e5), (3e-10, 1e6)], shifts=SH, dir=["diffusion_only"], bc=[["closed", "closed"]],
-            stag=[0, 1, 2], pat=PATTERNS, inflow=[0], disp=[0.0], mode=["mcd", "implicit"])))
+            stag=[0, 1, 2, 3], pat=PATTERNS, inflow=[0], disp=[0.0], mode=["mcd", "implicit"])))
         fam.append(("diffusion-only, multicomponent, long columns", P(
             "TR", n=NL, len=LEN3, D_dt=[(3e-10, 1e3), (3e-10, 1e5)], shifts=[10], dir=["diffusion_only"], bc=[["closed", "closed"]],
-            stag=[0, 1], pat=PATTERNS, inflow=[0], disp=[0.0], mode=["mcd", "implicit"])))
-        fam.append(("advective TRANSPORT, single D", P(
-            "TR", n=N, len=LEN3, disp=[0.0, 0.1, 2.0], D_dt=DDT, shifts=[3, 10], dir=["forward", "back"], bc=BC3,
-            stag=[0, 1, 2], pat=PATTERNS, inflow=[0, 1], mode=["plain"])))
-        fam.append(("advective TRANSPORT, single D, long columns", P(
-            "TR", n=NL, len=["equal", "growing"], disp=[0.0, 0.1, 2.0], D_dt=[(0.0, 1e3), (1e-9, 1e3), (1e-9, 1e6)], shifts=[10], dir=["forward", "back"], bc=BC3,
-            stag=[0, 1], pat=["uniform", "alt"], inflow=[0], mode=["plain"])))
+            stag=[0, 1, 3], pat=PATTERNS, inflow=[0], disp=[0.0], mode=["mcd", "implicit"])))
         fam.append(("ADVECTION keyword", P(
             "ADV", n=N + NL, shifts=[1, 2, 3, 10], dt=[1e3], dir=["forward"], pat=PATTERNS, inflow=[0, 1], solid=["none", "exchange", "calcite"])))
         fam.append(("solids, diffusion-only closed", P(
@@ -326,6 +377,14 @@ def families(tier):
         fam.append(("solids, pure advective TRANSPORT", P(
             "TR", n=N + NL, len=["equal", "growing"], D_dt=[(0.0, 1e3)], shifts=[3, 10], dir=["forward", "back"], bc=BC3,
             stag=[0], pat=PATTERNS, inflow=[0, 1], disp=[0.0], mode=["plain"], solid=["exchange", "calcite"])))
+    if not q:
+        # the two big families last: a deadline can then only cut into them
+        fam.append(("advective TRANSPORT, single D, long columns", P(
+            "TR", n=NL, len=["equal", "growing"], disp=[0.0, 0.1, 2.0], D_dt=[(0.0, 1e3), (1e-9, 1e3), (1e-9, 1e6)], shifts=[10], dir=["forward", "back"], bc=BC3,
+            stag=[0, 1], pat=["uniform", "alt"], inflow=[0], mode=["plain"])))
+        fam.append(("advective TRANSPORT, single D", P(
+            "TR", n=N, len=LEN3, disp=[0.0, 0.1, 2.0], D_dt=[DDT[0]] + DDT[2:], shifts=[3, 10], dir=["forward", "back"], bc=BC3,
+            stag=[0, 1, 2], pat=PATTERNS, inflow=[0, 1], mode=["plain"])))
     out = []
     for name, cs in fam:
         cs = [c for c in cs if not (c["fam"] == "ADV" and c.get("solid", "none") != "none" and c["shifts"] < 2)]
@@ -347,19 +406,24 @@ def run(tier):
         "BASIC read-outs TOTMOLE, TOT(\"water\"), CHARGE_BALANCE, TC and SYS(element) report the saved state of the cell",
         "charge inventory is compared relative to max(|charge|, dissolved moles of the column) because a balanced column has zero charge",
         "pure-advection equality is tested with the statement's only tolerance (relative 1e-9), not bitwise: every shifted solution is re-speciated by the engine",
-        "stagnant cells get kg water = th_im / th_m (the manual's condition for a mass-conserving first-order exchange)",
+        "stagnant cells get kg water = th_im / th_m (the manual's condition for a mass-conserving first-order exchange); stagnant variant 3 writes the exchange as symmetric MIX blocks between cells of equal water mass",
+        "an element that is absent from the whole column has no relative scale of its own: its inventory is compared with 1e-9 x the dissolved moles of the column (the engine's floor of 1e-13 mol per cell in implicit runs passes)",
+        "taken from the implementation, used only to name the mechanism in a fingerprint and never in a verdict: the text of the WARNING 'For balancing negative concentrations in MCD, added in total to the system:' and its '%.4e moles <element>.' lines",
     ]
     pool = core.Pool()
-    dl = core.Deadline(170 if tier == "quick" else 1700)
+    # hard deadlines (the targets are 60 s / 15 min on 16 workers); a tier that hits its deadline stops, marks the bound it
+    # was in and all later ones as not completed and reports exhaustive:false with exit 0
+    dl = core.Deadline(float(os.environ.get("VERIF_C11_DEADLINE_S", 150 if tier == "quick" else 840)))
     total = 0
     judged = {}
     ok_so_far = True
     for name, cs in families(tier):
         done = False
-        if ok_so_far:
-            before = ev.traces
+        if ok_so_far and not dl.passed():
+            before, t0 = ev.traces, time.time()
             done = explore(cs, ev, findings, pool, dl, judged)
             total += ev.traces - before
+            sys.stderr.write("  [%s] %s: %d cases in %.1f s\n" % (PROP, name, ev.traces - before, time.time() - t0))
         ok_so_far = ok_so_far and done
         ev.bound("%s: %d configurations" % (name, len(cs)), done, cases=len(cs))
     ev.extra["lattice_points"] = sum(len(cs) for _, cs in families(tier))
@@ -367,14 +431,29 @@ def run(tier):
     ev.extra["judged_by_subclaim"] = judged
     ev.extra["alphabet"] = {"patterns": PATTERNS, "solutions": SOL, "stagnant": {str(k): v for k, v in STAG.items()}, "elements": ELEMENTS, "base_length_m": L0}
     pool.close()
+    # vacuity guards.  With confirmed violations on the table the run is reported as violated (exit 1) and the guard that
+    # fired is recorded as a diagnostic: a library that breaks transport may well make a fifth of the runs fail.
+    guard = None
     if ev.traces and ev.not_completed > 0.2 * ev.traces:
-        raise SystemExit("HARNESS ERROR: %d of %d runs did not complete - the check is broken" % (ev.not_completed, ev.traces))
-    if ev.traces > 100 and len(ev.outcomes) < 20:
-        raise SystemExit("HARNESS ERROR: only %d distinct outcomes" % len(ev.outcomes))
-    for k in ("inventory", "shift", "convex", "balance"):
-        if ev.exhaustive and not judged.get(k):
-            raise SystemExit("HARNESS ERROR: sub-claim %s was never judged" % k)
+        guard = "%d of %d runs did not complete - the check is broken" % (ev.not_completed, ev.traces)
+    elif ev.traces > 100 and len(ev.outcomes) < 20:
+        guard = "only %d distinct outcomes" % len(ev.outcomes)
+    else:
+        for k in ("inventory", "shift", "convex", "balance"):
+            if ev.exhaustive and not judged.get(k):
+                guard = "sub-claim %s was never judged" % k
+    if guard:
+        if not findings.violations:
+            harness_error(guard)
+        ev.diagnostics.insert(0, "vacuity guard fired next to confirmed violations: " + guard)
     return core.finish(ev, findings)
+
+
+def harness_error(msg):
+    """A broken check must never look like a pass (0) or a violation (1)."""
+    sys.stderr.write("HARNESS ERROR: %s\n" % msg.lstrip(": "))
+    sys.stderr.flush()
+    raise SystemExit(2)
 
 
 def explore(cs, ev, findings, pool, dl, judged):
